@@ -17,6 +17,12 @@ Definition u_interval (a : val) : val :=
   | VI ns => let '(l0, l1, l2) := interval_of_time_ns ns in VL [VI l0; VI l1; VI l2]
   | _ => bad
   end.
+(* [first instant read; step]: the library reads the clock once, so only the first instant matters *)
+Definition u_interval_first (a : val) : val :=
+  match a with
+  | VL [VI ns; VI _step] => let '(l0, l1, l2) := interval_of_time_ns ns in VL [VI l0; VI l1; VI l2]
+  | _ => bad
+  end.
 Definition u_truediv (a : val) : val :=
   match a with
   | VL [VI x; VI y] => VL [VI (py_truediv_trunc x y); VI (py_truediv_ceil x y)]
@@ -66,7 +72,7 @@ Definition u_dns_pick (a : val) : val :=
 
 Open Scope string_scope.
 Definition units : list (string * (val -> val)) :=
-  [ ("echo", fun v => v); ("interval", u_interval); ("truediv", u_truediv);
+  [ ("echo", fun v => v); ("interval", u_interval); ("interval.first", u_interval_first); ("truediv", u_truediv);
     ("chain.l2", u_chain_l2); ("chain.l1", u_chain_l1);
     ("dns.pick", u_dns_pick) ].
 
